@@ -732,6 +732,10 @@ class Interp:
                         v, (int, AInt, ABool, IvInt)):
                     raise Raise("TypeError: value must be an integer", t)
                 ls = lanes_of(v)
+                # lanes the path has already decided (a range test on the
+                # value) count as what they were decided to be
+                ls = [lane_val(st, l) if l not in (0, 1) and lane_val(
+                    st, l) is not None else l for l in ls]
                 if len(ls) > w and any(l != 0 for l in ls[w:]):
                     raise Raise("ValueError: value will not fit in slice "
                                 "[%d:%d]" % (hi, lo), t)
